@@ -8,6 +8,7 @@ exactly; {"f":"nan"|"inf"|"-inf"}; {"s":text}; null = any other object.
 -/
 import Lean.Data.Json
 import Jap.Core.Typing
+import Jap.Core.Scalar
 import Jap.Gen.Registered
 
 open Lean Jap.Typing
@@ -178,6 +179,19 @@ def step (j : Json) : Json :=
     match uuidDeser (getStr j "s").toList with
     | .ok u => Json.mkObj [("ok", intToJson (u : Nat))]
     | .error e => errToJson e
+  | "complex_parse" =>
+    let partJ (p : Part) : Json := .str (String.ofList ((if p.neg then ['-'] else []) ++
+      (match p.tok with
+        | .dec ip fp ex => (if ip = [] then ['0'] else ip) ++ '.' :: (if fp = [] then ['0'] else fp) ++
+            (match ex with | none => [] | some (n, ds) => 'e' :: (if n then '-' else '+') :: ds)
+        | .inf => "inf".toList
+        | .nan => "nan".toList)))
+    match complexParse (getStr j "s").toList with
+    | some (x, y) => Json.mkObj [("ok", .arr #[partJ x, partJ y])]
+    | none => errToJson .value
+  | "resolve" =>
+    let q := Jap.Scalar.jrun 0 (Jap.Scalar.classes (getStr j "s").toList)
+    Json.mkObj [("l", intToJson (Jap.Scalar.tagL q : Nat)), ("d", intToJson (Jap.Scalar.tagD q : Nat))]
   | "secret" => Json.mkObj [("s", .str (secretSer (getStr j "s")))]
   | "decimal" =>
     match SerKind.ofName (getStr j "ser"), xnumOfJson (j.getObjValD "d") with
